@@ -71,7 +71,8 @@ def baseKwargs (ps : List (String × String)) : SDict Float :=
   ++ (match param ps "suffix" with | some s => [("name_suffix", .str s)] | none => [])
   ++ (match param ps "tf" with | some s => [("timeframe", .str s)] | none => [])
   ++ [("timeframe_fill", .bool (param ps "fill" == some "1"))]
-  ++ (if param ps "ha" == some "1" then [("candlestick_type", .str "HA")] else [])
+  -- (`cs=<name>` next to `ha=1`: that candlestick type name instead of "HA")
+  ++ (if param ps "ha" == some "1" then [("candlestick_type", .str (pStr ps "cs" "HA"))] else [])
   ++ (match (param ps "life").bind String.toInt? with | some t => [("candles_lifespan", .td t)] | none => [])
 
 /-- the configuration dict described by the tokens: `specs.as_config_dict`, then the test switches
